@@ -258,8 +258,11 @@ def load_known():
 
 class Outcome:
     """Collects what a check run found; prints the interface lines and writes the evidence file."""
+    current = None      # the Outcome of the running check (bin/check salvages established violations from it on a tool error)
 
     def __init__(self, pid, tier, seed, level):
+        Outcome.current = self
+        self.finished = False
         self.pid, self.tier, self.seed, self.level = pid, tier, seed, level
         self.t0 = time.time()
         self.violations = []  # dicts: signature, what, replay(dict)
@@ -282,6 +285,11 @@ class Outcome:
             self.drift.append({"module": module, "what": what})
 
     def finish(self):
+        self.finished = True
+        if not self.coverage:       # only on the salvage path of bin/check: the run stopped before its coverage was assembled
+            self.coverage = {"states": 0, "transitions": 0, "traces_validated_against_impl": 0, "evaluations": sum(v["count"] for v in self.violations),
+                             "distinct_nontrivial": len(self.violations), "samples": [v["replay"] for v in self.violations[:2]], "exhaustive": False,
+                             "rule": "incomplete run (tool error after violations were established)"}
         known = [k for k in load_known() if k.get("property") == self.pid and k.get("status") == "known"]
         rc = 0
         unknown = 0
